@@ -3,6 +3,7 @@
    Non-vacuity examples: Proofs/ChunkExamples.v. *)
 From HV Require Import Base.Prelude Model.Chunk Model.Elem
   Proofs.ChunkLists Proofs.ChunkSpec Proofs.ChunkCoords Proofs.ChunkTiling Proofs.Elem Proofs.ChunkExamples.
+From HV Require Import Model.ChunkIndex Proofs.ChunkIndex.
 From Coq Require Import Permutation.
 
 (* every rank >= 1, every positive extents / chunk extents (larger, equal, non-dividing), every
@@ -59,3 +60,22 @@ Theorem C01_widen_exact : forall z, (0 < Z.abs z < 2 ^ 53)%Z ->
      (Z.of_N (N.log2 (Z.to_N (Z.abs z))) - 52)%Z).
 Proof. exact f64_of_Z_exact. Qed.
 Print Assumptions C01_widen_exact.
+
+(* ---- the chunk index (version 1 B-tree, node type 1) between the chunk writer and the chunk reader:
+   Model/ChunkIndex.v, Proofs/ChunkIndex.v ---- *)
+
+(* every rank, every number of entries below 65536, every offsets/addresses/sizes that fit their fields: the
+   reader (ParseBTreeV1Node + CollectAllChunks on the bytes WriteToFile produced) returns exactly the written
+   entries, each once, in the writer's sort order, offsets divided by the chunk extents, filter mask 0 *)
+Theorem C01_index_roundtrip : forall cdims es f eof,
+  index_pre cdims es eof = true ->
+  exists f',
+    write_index (length cdims) es f eof = Outcome.Ok (f', eof + Bytes.blen (serialize_leaf (length cdims) es), eof) /\
+    read_index f' eof 8 cdims = COk (map (expected_entry cdims) (sort_entries es)).
+Proof. exact index_roundtrip. Qed.
+Print Assumptions C01_index_roundtrip.
+
+(* ... and the sort is a permutation: every written entry appears exactly once, nothing else appears *)
+Theorem C01_index_sort_permutation : forall es, Permutation (sort_entries es) es.
+Proof. exact sort_entries_perm. Qed.
+Print Assumptions C01_index_sort_permutation.
